@@ -6,32 +6,28 @@ package grocksdb
 import (
 	"errors"
 	"fmt"
-	"sync"
 )
 
 // Transaction is used with TransactionDB for transaction support.
 type Transaction struct {
-	mu          sync.Mutex
-	m           *memDB
-	pessimistic bool
-	lockTimeout int64 // ms
-	ops         []wbOp
-	savePoints  []int
-	held        []string // lock keys owned (guarded by memDB.lockMu)
-	done        bool
-	name        string
-	snap        *memSnapshot
+	// The real Transaction only wraps an opaque C pointer, so any two
+	// transactions are reflect.DeepEqual (0chain's tests rely on that when
+	// they compare Connection structs). To keep that property the stub keeps
+	// no state here: everything lives in a side table keyed by the address of
+	// this struct (see txnState in stub_helpers.go). The pad byte gives the
+	// struct a non-zero size and therefore a unique address.
+	_ byte
 }
 
 // SetName of transaction.
 func (transaction *Transaction) SetName(name string) (err error) {
-	transaction.name = name
+	transaction.state().name = name
 	return nil
 }
 
 // GetName of transaction.
 func (transaction *Transaction) GetName() string {
-	return transaction.name
+	return transaction.state().name
 }
 
 // Prepare transaction.
@@ -41,12 +37,12 @@ func (transaction *Transaction) Prepare() (err error) {
 
 // Commit commits the transaction to the database.
 func (transaction *Transaction) Commit() (err error) {
-	return transaction.commit()
+	return transaction.state().commit()
 }
 
 // Rollback performs a rollback on the transaction.
 func (transaction *Transaction) Rollback() (err error) {
-	return transaction.rollback()
+	return transaction.state().rollback()
 }
 
 // Get returns the data associated with the key from the database given this transaction.
@@ -61,7 +57,7 @@ func (transaction *Transaction) GetPinned(opts *ReadOptions, key []byte) (handle
 
 // GetWithCF returns the data associated with the key from the database, with column family, given this transaction.
 func (transaction *Transaction) GetWithCF(opts *ReadOptions, cf *ColumnFamilyHandle, key []byte) (slice *Slice, err error) {
-	v, ok, err := transaction.get(opts, cfID(cf), key)
+	v, ok, err := transaction.state().get(opts, cfID(cf), key)
 	if err != nil {
 		return nil, err
 	}
@@ -70,7 +66,7 @@ func (transaction *Transaction) GetWithCF(opts *ReadOptions, cf *ColumnFamilyHan
 
 // GetPinnedWithCF returns the data associated with the key from the transaction.
 func (transaction *Transaction) GetPinnedWithCF(opts *ReadOptions, cf *ColumnFamilyHandle, key []byte) (handle *PinnableSliceHandle, err error) {
-	v, ok, err := transaction.get(opts, cfID(cf), key)
+	v, ok, err := transaction.state().get(opts, cfID(cf), key)
 	if err != nil {
 		return nil, err
 	}
@@ -92,7 +88,7 @@ func (transaction *Transaction) GetPinnedForUpdate(opts *ReadOptions, key []byte
 // GetForUpdateWithCF queries the data associated with the key and puts an exclusive lock on the key
 // from the database, with column family, given this transaction.
 func (transaction *Transaction) GetForUpdateWithCF(opts *ReadOptions, cf *ColumnFamilyHandle, key []byte) (slice *Slice, err error) {
-	if err := transaction.lock(cfID(cf), key); err != nil {
+	if err := transaction.state().lock(cfID(cf), key); err != nil {
 		return nil, err
 	}
 	return transaction.GetWithCF(opts, cf, key)
@@ -101,7 +97,7 @@ func (transaction *Transaction) GetForUpdateWithCF(opts *ReadOptions, cf *Column
 // GetPinnedForUpdateWithCF returns the data associated with the key and puts an exclusive lock on the key
 // from the database given this transaction.
 func (transaction *Transaction) GetPinnedForUpdateWithCF(opts *ReadOptions, cf *ColumnFamilyHandle, key []byte) (handle *PinnableSliceHandle, err error) {
-	if err := transaction.lock(cfID(cf), key); err != nil {
+	if err := transaction.state().lock(cfID(cf), key); err != nil {
 		return nil, err
 	}
 	return transaction.GetPinnedWithCF(opts, cf, key)
@@ -132,7 +128,7 @@ func (transaction *Transaction) Put(key, value []byte) (err error) {
 
 // PutCF writes data associated with a key to the transaction. Key belongs to column family.
 func (transaction *Transaction) PutCF(cf *ColumnFamilyHandle, key, value []byte) (err error) {
-	return transaction.write(wbOp{t: WriteBatchCFValueRecord, cf: cfID(cf), key: cloneBytes(key), value: cloneBytes(value), isData: true})
+	return transaction.state().write(wbOp{t: WriteBatchCFValueRecord, cf: cfID(cf), key: cloneBytes(key), value: cloneBytes(value), isData: true})
 }
 
 // Merge key, value to the transaction.
@@ -142,7 +138,7 @@ func (transaction *Transaction) Merge(key, value []byte) (err error) {
 
 // MergeCF key, value to the transaction on specific column family.
 func (transaction *Transaction) MergeCF(cf *ColumnFamilyHandle, key, value []byte) (err error) {
-	return transaction.write(wbOp{t: WriteBatchCFMergeRecord, cf: cfID(cf), key: cloneBytes(key), value: cloneBytes(value), isData: true})
+	return transaction.state().write(wbOp{t: WriteBatchCFMergeRecord, cf: cfID(cf), key: cloneBytes(key), value: cloneBytes(value), isData: true})
 }
 
 // Delete removes the data associated with the key from the transaction.
@@ -152,7 +148,7 @@ func (transaction *Transaction) Delete(key []byte) (err error) {
 
 // DeleteCF removes the data associated with the key (belongs to specific column family) from the transaction.
 func (transaction *Transaction) DeleteCF(cf *ColumnFamilyHandle, key []byte) (err error) {
-	return transaction.write(wbOp{t: WriteBatchCFDeletionRecord, cf: cfID(cf), key: cloneBytes(key), isData: true})
+	return transaction.state().write(wbOp{t: WriteBatchCFDeletionRecord, cf: cfID(cf), key: cloneBytes(key), isData: true})
 }
 
 // NewIterator returns an iterator that will iterate on all keys in the default
@@ -180,43 +176,51 @@ func (transaction *Transaction) NewIterator(opts *ReadOptions) *Iterator {
 //
 // Caller is responsible for deleting the returned Iterator.
 func (transaction *Transaction) NewIteratorCF(opts *ReadOptions, cf *ColumnFamilyHandle) *Iterator {
-	return transaction.iterator(opts, cfID(cf))
+	return transaction.state().iterator(opts, cfID(cf))
 }
 
 // SetSavePoint records the state of the transaction for future calls to
 // RollbackToSavePoint().  May be called multiple times to set multiple save
 // points.
 func (transaction *Transaction) SetSavePoint() {
-	transaction.savePoints = append(transaction.savePoints, len(transaction.ops))
+	st := transaction.state()
+	st.mu.Lock()
+	st.savePoints = append(st.savePoints, len(st.ops))
+	st.mu.Unlock()
 }
 
 // RollbackToSavePoint undo all operations in this transaction (Put, Merge, Delete, PutLogData)
 // since the most recent call to SetSavePoint() and removes the most recent
 // SetSavePoint().
 func (transaction *Transaction) RollbackToSavePoint() (err error) {
-	transaction.mu.Lock()
-	defer transaction.mu.Unlock()
-	if len(transaction.savePoints) == 0 {
+	st := transaction.state()
+	st.mu.Lock()
+	defer st.mu.Unlock()
+	if len(st.savePoints) == 0 {
 		return errors.New("NotFound: ")
 	}
-	n := transaction.savePoints[len(transaction.savePoints)-1]
-	transaction.savePoints = transaction.savePoints[:len(transaction.savePoints)-1]
-	transaction.ops = transaction.ops[:n]
+	n := st.savePoints[len(st.savePoints)-1]
+	st.savePoints = st.savePoints[:len(st.savePoints)-1]
+	st.ops = st.ops[:n]
 	return nil
 }
 
 // GetSnapshot returns the Snapshot created by the last call to SetSnapshot().
 func (transaction *Transaction) GetSnapshot() *Snapshot {
-	if transaction.snap == nil {
+	st := transaction.state()
+	if st.snap == nil {
 		return nil
 	}
-	return &Snapshot{snap: transaction.snap}
+	return &Snapshot{snap: st.snap}
 }
 
 // Destroy deallocates the transaction object.
 func (transaction *Transaction) Destroy() {
-	_ = transaction.rollback()
-	transaction.done = true
+	if v, ok := txnStates.LoadAndDelete(transaction); ok {
+		st := v.(*txnState)
+		_ = st.rollback()
+		st.done = true
+	}
 }
 
 // GetWriteBatchWI returns underlying write batch wi.
@@ -227,14 +231,15 @@ func (transaction *Transaction) GetWriteBatchWI() *WriteBatchWI {
 // RebuildFromWriteBatch rebuilds transaction from write_batch.
 // Note: If no error, write_batch will be destroyed. It's move-op (see also: C++ Move)
 func (transaction *Transaction) RebuildFromWriteBatch(wb *WriteBatch) (err error) {
-	transaction.mu.Lock()
-	transaction.ops = nil
-	transaction.mu.Unlock()
+	st := transaction.state()
+	st.mu.Lock()
+	st.ops = nil
+	st.mu.Unlock()
 	for _, op := range wb.ops {
 		if !op.isData {
 			continue
 		}
-		if err := transaction.write(op); err != nil {
+		if err := st.write(op); err != nil {
 			return err
 		}
 	}
